@@ -324,7 +324,14 @@ def run_smart_case(case, model, py_only=False, keep_engine=False):
             rel = rprov.is_subpath(rroot, remote_path, strict=True)
             return bool(rel) and pred(rel)
         if case["auto"][0] != "none":
+            # the application may register several predicates: a path is auto-synced when ANY of them matches.  The
+            # case's predicate is registered alone, before, or after a predicate that never matches (same meaning).
+            k = (case.get("hash_mult", 1) + len(case.get("schedule", []))) % 3
+            if k == 1:
+                eng.cs.register_auto_sync_callback(lambda p: False)
             eng.cs.register_auto_sync_callback(callback)
+            if k == 2:
+                eng.cs.register_auto_sync_callback(lambda p: False)
 
         def emit(ev, readable):
             cur = [world.snapshot(0), world.snapshot(1)]
